@@ -29,7 +29,7 @@ func startsWord(t string) bool {
 	return c == '_' || c >= '0' && c <= '9' || c >= 'a' && c <= 'z' || c >= 'A' && c <= 'Z'
 }
 
-var commentPool = []string{"// note", "// 注释", "//", "// a, b { c }", "//// x", "// trailing ; stuff", "// 100% done", "// %s %d", "// $x `tick` \"q\"", "// <tag> &amp; {{.}}", "//\ttab"}
+var commentPool = []string{"// default pad is '0'", "// say \"hi\"", "// it's", "// \"", "// '","// note", "// 注释", "//", "// a, b { c }", "//// x", "// trailing ; stuff", "// 100% done", "// %s %d", "// $x `tick` \"q\"", "// <tag> &amp; {{.}}", "//\ttab"}
 
 func joinNoisy(toks []string, r *Rng, noise int) string { return joinLayout(toks, r, noise, true) }
 
@@ -90,7 +90,7 @@ func joinLayout(toks []string, r *Rng, noise int, comments bool) string {
 	if r.Chance(1, 2) {
 		b.WriteString("\n")
 	}
-	if comments && r.Chance(1, 8) {
+	if comments && r.Chance(1, 4) {
 		b.WriteString(r.Pick(commentPool))
 	}
 	return b.String()
@@ -101,10 +101,22 @@ var garbage = []string{"$", "}", "{", "{{", "@", "@foo(", "'", "\"", "`", ";;", 
 // FormatInput produces one input text.
 func FormatInput(seed uint64) []byte { return FormatInputLayout(seed, 0) }
 
+// FormatInputLayout decorates formatInputLayout: now and then a UTF-8 byte
+// order mark in front (what Windows editors save), with valid and invalid
+// texts alike.
+func FormatInputLayout(seed uint64, layout int) []byte {
+	in := formatInputLayout(seed, layout)
+	r := NewRng(SubSeed(seed, "bom", 0))
+	if r.Chance(1, 10) {
+		return append([]byte("\xef\xbb\xbf"), in...)
+	}
+	return in
+}
+
 // FormatInputLayout: the same token stream as FormatInput(seed) for every
 // layout number; layout 0 is FormatInput itself, other layouts differ from it
 // in white space only (where comments sit relative to line breaks included).
-func FormatInputLayout(seed uint64, layout int) []byte {
+func formatInputLayout(seed uint64, layout int) []byte {
 	r := NewRng(seed)
 	switch x := r.Intn(100); {
 	case x < 3:
